@@ -29,7 +29,7 @@ ANCHORS = ['recursiveloader:ManifestRecursiveLoader.assert_directory_verifies',
            'recursiveloader:ManifestRecursiveLoader.update_entries_for_directory',
            'verify:verify_path', 'verify:update_entry_for_path']
 REQUIRED = ['recursiveloader:ManifestRecursiveLoader.load_unregistered_manifests',
-            'expect:loop', 'expect:noloop', 'xdev_cases', 'walk_yields']
+            'expect:loop', 'expect:noloop', 'xdev_cases', 'walk_yields', 'pairs_cases']
 ASSUMPTIONS = ['/dev/shm is a file system different from the scratch directory '
                '(checked at run time)',
                'a stray (unlisted) file on another device may be reported as a stray '
@@ -53,8 +53,10 @@ def units(tier, seed):
             u.append({'k': 'enum', 'shape': list(sh), 'maxl': maxl})
     for i in range(20 if tier == 'quick' else 1500):
         u.append({'k': 'rand', 'i': i})
-    for i in range(8 if tier == 'quick' else 200):
+    for i in range(24 if tier == 'quick' else 360):
         u.append({'k': 'xdev', 'i': i})
+    for i in range(36 if tier == 'quick' else 360):
+        u.append({'k': 'pairs', 'i': i})
     return u
 
 
@@ -292,15 +294,33 @@ def exec_xdev(ctx, case):
             f.write('foreign2')
         loc = paths[case['loc']]
         lp = (loc + '/' if loc else '') + 'xl'
+        extra = []
         if case['what'] == 'dir':
             os.symlink(ext, os.path.join(root, lp))
+        elif case['what'] == 'manifest':
+            # a sub-Manifest that is a symlink to a file on the other file system
+            # (with a matching MANIFEST entry when 'listed')
+            mdir = loc
+            if not mdir:
+                mdir = 'xm'
+                os.makedirs(os.path.join(root, mdir), exist_ok=True)
+                with open(os.path.join(root, mdir, 'f'), 'w') as f:
+                    f.write('f')
+            lp = mdir + '/Manifest'
+            fm = b'DIST foreign.tar 1\n'
+            with open(os.path.join(ext, 'foreign-Manifest'), 'wb') as f:
+                f.write(fm)
+            os.symlink(os.path.join(ext, 'foreign-Manifest'), os.path.join(root, lp))
+            if case['listed'] and not case['ignored']:
+                extra = [mtext.file_entry('MANIFEST', lp, fm, ['SHA256'])]
         else:
             os.symlink(os.path.join(ext, 'xf'), os.path.join(root, lp))
         ignores = [lp] if case['ignored'] else []
         loop, files, nd = explore(root, set(ignores))
         listed = [f for f in files
-                  if case['listed'] or not mtext.comp_prefix(f, lp)]
-        write_manifest(root, listed, ignores)
+                  if (case['listed'] or not mtext.comp_prefix(f, lp))
+                  and not (case['what'] == 'manifest' and f == lp)]
+        write_manifest(root, listed, ignores, extra)
         for walker in WALKERS + ['update-inc', 'create']:
             if walker == 'create' and case['ignored']:
                 continue        # nothing can be IGNOREd before a Manifest exists
@@ -312,7 +332,7 @@ def exec_xdev(ctx, case):
                 (kind, val), yields = run_walker(root, walker, case['wseed'], ax)
                 must = (not ax) and not case['ignored']
                 # the unregistered-Manifest scan only looks at directories
-                if walker == 'scan' and case['what'] == 'file':
+                if walker == 'scan' and case['what'] in ('file', 'manifest'):
                     must = False
                 if kind == 'exc':
                     if isinstance(val, ManifestCrossDevice):
@@ -326,7 +346,7 @@ def exec_xdev(ctx, case):
                             walker, adapt.exc_key(val)), '%s raised %r' % (walker, val),
                             c2)
                 elif must:
-                    if walker == 'verify' and case['what'] == 'file' \
+                    if walker == 'verify' and case['what'] in ('file', 'manifest') \
                             and not case['listed']:
                         r, calls = val
                         if lp in calls:
@@ -338,25 +358,96 @@ def exec_xdev(ctx, case):
                         'another device' % (walker, val, case['what'], lp), c2)
 
 
+def exec_pairs(ctx, case):
+    """Several hidden and several IGNOREd directories next to each other, each one
+    holding a link back to an ancestor (or being a link to another file system):
+    everything beneath them is exempt, so every walker must complete."""
+    from gemato.exceptions import ManifestCrossDevice, ManifestSymlinkLoop
+    with common.Scratch('vf-c16p-') as d, \
+            common.Scratch('vf-c16p-', base='/dev/shm') as ext:
+        root = os.path.join(d, 't')
+        os.makedirs(root)
+        with open(os.path.join(root, 'f'), 'w') as f:
+            f.write('f')
+        xdev = case['xdev'] and os.stat(d).st_dev != os.stat(ext).st_dev
+        with open(os.path.join(ext, 'inner'), 'w') as f:
+            f.write('x')
+        ignores = []
+        for parent, names, ign in (('pair', case['hidden'], False),
+                                   ('pairi', case['ignored'], True)):
+            os.makedirs(os.path.join(root, parent))
+            for nm in names:
+                p = os.path.join(root, parent, nm)
+                if xdev:
+                    os.symlink(ext, p)
+                else:
+                    os.makedirs(p)
+                    os.symlink('../..', os.path.join(p, 'up'))
+                if ign:
+                    ignores.append(parent + '/' + nm)
+        if case['extra_dir']:
+            os.makedirs(os.path.join(root, 'pairi', 'plain'))
+            with open(os.path.join(root, 'pairi', 'plain', 'g'), 'w') as f:
+                f.write('g')
+        loop, files, nd = explore(root, set(ignores))
+        write_manifest(root, files, ignores)
+        for walker in WALKERS + ['update-inc']:
+            c2 = dict(case, walker=walker)
+            ctx.case(sig=('pairs', len(case['hidden']), len(case['ignored']), xdev,
+                          walker), case=c2, klass='pairs')
+            ctx.count('pairs_cases')
+            (kind, val), yields = run_walker(root, walker, case['wseed'],
+                                             allow_xdev=not xdev)
+            if kind == 'exc':
+                if isinstance(val, (ManifestSymlinkLoop, ManifestCrossDevice)):
+                    ctx.violation('exempt-path-raises:%s:%s' % (
+                        walker, type(val).__name__), '%s raised %r for a path beneath a '
+                        'hidden or IGNOREd directory' % (walker, val), c2)
+                else:
+                    ctx.violation('walker-raises:%s:%s' % (walker, adapt.exc_key(val)),
+                                  '%s raised %r' % (walker, val), c2)
+            elif walker == 'verify':
+                r, calls = val
+                if calls or r is not True:
+                    ctx.violation('exempt-path-reported', 'verification reported %r '
+                                  'although only exempt directories hold anything '
+                                  'unlisted' % (calls[:4],), c2)
+
+
+def run_pairs(u, ctx):
+    rng = common.rng_for(ctx.seed, ID, 'pairs', u['i'])
+    i = u['i']
+    case = {'kind': 'pairs',
+            'hidden': ['.a', '.b', '.c', '.git', '.github'][:2 + i % 3],
+            'ignored': ['distfiles', 'local', 'lost+found', 'packages'][:2 + (i // 3) % 3],
+            'xdev': bool((i // 9) % 2), 'extra_dir': bool((i // 18) % 2),
+            'wseed': rng.randrange(1 << 30)}
+    exec_pairs(ctx, case)
+    ctx.sample(case, 'pairs')
+
+
 def run_xdev(u, ctx):
     rng = common.rng_for(ctx.seed, ID, 'xdev', u['i'])
     n = rng.randint(1, 3)
     shape = [rng.randrange(i) for i in range(1, n + 1)]
     i = u['i']
     case = {'kind': 'xdev', 'shape': shape, 'loc': rng.randrange(n + 1),
-            'what': ['dir', 'file'][i % 2], 'listed': bool((i // 2) % 2),
-            'ignored': bool((i // 4) % 2), 'wseed': rng.randrange(1 << 30)}
+            'what': ['dir', 'file', 'manifest'][i % 3], 'listed': bool((i // 3) % 2),
+            'ignored': bool((i // 6) % 2), 'wseed': rng.randrange(1 << 30)}
     exec_xdev(ctx, case)
     ctx.sample(case, 'xdev')
 
 
 def run_unit(u, ctx):
-    {'enum': run_enum, 'rand': run_rand, 'xdev': run_xdev}[u['k']](u, ctx)
+    {'enum': run_enum, 'rand': run_rand, 'xdev': run_xdev,
+     'pairs': run_pairs}[u['k']](u, ctx)
 
 
 def replay(case, ctx):
     case = {k: v for k, v in case.items() if k not in ('walker', 'allow_xdev')}
     if case['kind'] == 'loop':
         exec_loop_case(ctx, case)
+    elif case['kind'] == 'pairs':
+        exec_pairs(ctx, case)
     else:
         exec_xdev(ctx, case)
